@@ -19,6 +19,9 @@ public:
 
 	friend void swap(small_vector &a, small_vector &b) {
 		using std::swap;
+		// The element-wise hand-over below destroys an element before it moves from its counterpart.
+		if(&a == &b)
+			return;
 		swap(a._allocator, b._allocator);
 		// Elements in the inline array live inside the vector itself: they change sides one by
 		// one through T's move constructor (T may point into itself), never as raw bytes.
